@@ -122,6 +122,14 @@ def applyEdit (rows : List (Nat × RData)) (fresh : List Node) (t : Node) : Sexp
   | .list [.atom "sub", rs, _, _] => do
       let rs ← rs.toBool?
       pure (subst rs (mkEmap rows) t)
+  -- `inplace=True`: `_rebuild` writes the same arguments back with `_update` — value-level the same tree
+  | .list [.atom "tri", rs, .list pairs] => do
+      let rs ← rs.toBool?
+      let m ← toPairs (preorder t) fresh pairs
+      pure (visitRoot rs m t)
+  | .list [.atom "subi", rs, _, _] => do
+      let rs ← rs.toBool?
+      pure (subst rs (mkEmap rows) t)
   | _ => none
 
 def applyEdits (rows : List (Nat × RData)) (fresh : List Node) : Node → List Sexp → Option Node
@@ -140,6 +148,10 @@ def ofRes : Res → Sexp
 
 def step : Sexp → Option Sexp
   | .list [.atom "edit", _, _, .list edits, tree, .list rtab, .list fresh] => do
+      -- modification paths outside the model (NestedTransformer, direct `_update`): direct oracle only
+      if edits.any (fun e => match e with | .list (.atom "ntr" :: _) => true | .list (.atom "upd" :: _) => true | _ => false) then
+        pure (.list [.atom "ok", .atom "oracle-only"])
+      else
       match tree with
       | .list [.atom "unsupported"] => pure (.list [.atom "error", .atom "unsupported"])
       | _ =>
